@@ -227,6 +227,14 @@ def make_world(m, t, no_prss, k):
     return world
 
 
+def _placeholder(mpc, a):
+    if isinstance(a, mpc.SecureFixedPoint):
+        return type(a)(None, integral=a.integral)
+    if isinstance(a, (mpc.SecureInteger, mpc.SecureFiniteField, mpc.SecureFloat)):
+        return type(a)(None)
+    return a
+
+
 def make_mp_program(build):
     async def mp_program(mpc, ctx):
         await mpc.start()
@@ -237,6 +245,11 @@ def make_mp_program(build):
             op = ops[name]
             sender = idx % m
             plain = [op.make(v) for v in vals]
+            if mpc.pid != sender:
+                # private inputs: only the sender knows the values, the other parties pass placeholders (a fixed-point
+                # placeholder carries the sender's integrality mark: input() takes the mark from the party's own argument,
+                # see the C03 known finding about marks inferred from private values)
+                plain = [_placeholder(mpc, a) for a in plain]
             if all(isinstance(a, mpc.SecureObject) for a in plain) and plain and len({type(a) for a in plain}) == 1 \
                     and not hasattr(type(plain[0]), '_input') and not getattr(type(plain[0]), 'frac_length', 0):
                 # (fixed-point numbers are input one by one: a list input takes the integral flag of element 0
